@@ -157,6 +157,12 @@ def reference(case):
 def run_case(ctx, case):
     linker, subs = build(case)
     n, t = case['n'], case['t']
+    if case.get('unselected_nan') and case['selected'] is not None:
+        # a submodel left out of the selection takes no part at all: whatever its check variables hold (NaN included) is not looked at
+        for key, m in subs.items():
+            if key not in case['selected']:
+                m.A[t] = math.nan
+                m.B[t] = math.inf
     before = {key: scripted.snapshot_model(m) for key, m in subs.items()}
     kw = dict(min_iter=case['min_iter'], max_iter=case['max_iter'], tol=case['tol'], failures=case['failures'])
     if case['selected'] is not None:
@@ -280,6 +286,8 @@ def run_shard(ctx):
         keymap = {k2: (repr(k2) if not isinstance(k2, str) else k2) for k2 in keys}
         if sel is not None:
             case['selected'] = [keymap[x] for x in sel]
+            if len(sel) < len(keys) and rng.random() < 0.3:
+                case['unselected_nan'] = True
         if rng.random() < 0.15:
             case['offset'] = rng.choice([-1, 1])
             if not 0 <= case['t'] + case['offset'] < case['n']:
